@@ -29,6 +29,11 @@ SETS = {   # programs and bindings chosen so that every thread's solo result dif
     # the same macro text in every thread, its body reading a variable that every thread binds differently
     "samemacro": (["[1, 2, 3].map(y, y + k)"] * 4, [{"k": 10}, {"k": 100}, {"k": 1000}, {"k": 5}]),
     "samemacro2": (["[k, 2, 3].filter(y, [y, k].exists(z, z > k + y))"] * 4, [{"k": 1}, {"k": -7}, {"k": 2}, {"k": 0}]),
+    # zone arguments that a process-wide memo could conflate
+    "zones": (["timestamp('2020-06-01T12:30:00Z').getHours('-00:45') * 100 + timestamp('2020-06-01T12:30:00Z').getMinutes('-00:45') + x",
+               "timestamp('2020-06-01T12:30:00Z').getHours('+00:45') * 100 + timestamp('2020-06-01T12:30:00Z').getMinutes('+00:45') + x",
+               "timestamp('2020-06-01T12:30:00Z').getHours('00:45') * 100 + x", "timestamp('2020-06-01T12:30:00Z').getHours('-0:45') * 100 + x"],
+              [{"x": 1}, {"x": 2}, {"x": 3}, {"x": 4}]),
     "macro": (["[x, 2].map(y, y * x)", "[x, 3].map(y, y + x)", "[x, 4].map(y, y - x)", "[x, 5].map(y, y + x + x)"],
               [{"x": 2}, {"x": 5}, {"x": 7}, {"x": 11}]),
 }
